@@ -1,0 +1,25 @@
+//go:build verif
+
+package gtree
+
+import "sync/atomic"
+
+// VerifHook, when set, is called at every pipeline hand-over point with the
+// name of the point. It exists only in builds with the "verif" tag and is used
+// by external verification harnesses to inject delays and to record traces.
+var verifHook atomic.Pointer[func(string)]
+
+// SetVerifHook installs (or, with nil, removes) the hook.
+func SetVerifHook(f func(string)) {
+	if f == nil {
+		verifHook.Store(nil)
+		return
+	}
+	verifHook.Store(&f)
+}
+
+func verifPoint(name string) {
+	if f := verifHook.Load(); f != nil {
+		(*f)(name)
+	}
+}
